@@ -122,22 +122,7 @@ func runC10(c *Ctx) {
 	if f := c.A.Func("(*Client).hello"); f != nil {
 		c.obMustUnder("EHLO when not greeted", f, []string{"call:(*Client).ehlo"}, `Client.didHello == false`, `(*Client).greet(param0) == nil`)
 	}
-	if f := c.A.Func("(*Client).ehlo"); f != nil {
-		for _, st := range s.Find(f, "st:Client.ext") {
-			_, _, v := storedField(st)
-			R.Ob(c.siteKey(st, "ext replaced by a fresh map"), c.P.InstrPos(st), describe(v) == "makemap", "Client.ext becomes "+describe(v))
-			c.obFactMatch("ext replaced only after a 250", st, `^\(\*Client\)\.cmd\(param0,250,"%s %s",.*\)#2 == nil$`, "extension map replaced although EHLO failed")
-		}
-		R.Ob("(*Client).ehlo/replaces ext", c.P.Pos(f.Pos()), len(s.Find(f, "st:Client.ext")) >= 1, "ehlo does not store the extension map")
-		// ... on EVERY successful EHLO, also one whose reply lists no extension at all
-		for _, site := range s.Find(f, "ccmd") {
-			site := site
-			c.obFollowH("every successful EHLO replaces the extension map", f, func(in ssa.Instruction) bool { return in == site }, []string{"st:Client.ext"}, describe(site.(ssa.Value))+"#2 == nil")
-		}
-	}
-	if f := c.A.Func("(*Client).helo"); f != nil {
-		R.Ob("(*Client).helo/clears ext", c.P.Pos(f.Pos()), s.Must(f)["st:Client.ext=nil"], "HELO fallback keeps stale extensions")
-	}
+	ruleEhloReplacesExt(c)
 
 	R.Rule("R-ctls-no-downgrade", "E3 + who-may-call", "initStartTLS reaches startTLS only when STARTTLS is advertised and fails otherwise; the dial helpers close and return nil on failure; sendMail only uses a client from DialTLS/DialStartTLS obtained without error", 8)
 	if f := c.A.Func("initStartTLS"); f != nil {
@@ -197,5 +182,28 @@ func runC10(c *Ctx) {
 		for _, bad := range []string{"call:Dial", "call:NewClient"} {
 			R.Ob("sendMail/no plaintext dial ("+bad+")", c.P.Pos(f.Pos()), len(s.Find(f, bad)) == 0, "sendMail dials without TLS")
 		}
+	}
+}
+
+// ruleEhloReplacesExt (part of R-ctls-rehello in C10, R-ext-latest-ehlo in C15): the extension map always
+// reflects the most recent greeting.
+func ruleEhloReplacesExt(c *Ctx) {
+	R := c.R
+	_, s := c.Std()
+	if f := c.A.Func("(*Client).ehlo"); f != nil {
+		for _, st := range s.Find(f, "st:Client.ext") {
+			_, _, v := storedField(st)
+			R.Ob(c.siteKey(st, "ext replaced by a fresh map"), c.P.InstrPos(st), describe(v) == "makemap", "Client.ext becomes "+describe(v))
+			c.obFactMatch("ext replaced only after a 250", st, `^\(\*Client\)\.cmd\(param0,250,"%s %s",.*\)#2 == nil$`, "extension map replaced although EHLO failed")
+		}
+		R.Ob("(*Client).ehlo/replaces ext", c.P.Pos(f.Pos()), len(s.Find(f, "st:Client.ext")) >= 1, "ehlo does not store the extension map")
+		// ... on EVERY successful EHLO, also one whose reply lists no extension at all
+		for _, site := range s.Find(f, "ccmd") {
+			site := site
+			c.obFollowH("every successful EHLO replaces the extension map", f, func(in ssa.Instruction) bool { return in == site }, []string{"st:Client.ext"}, describe(site.(ssa.Value))+"#2 == nil")
+		}
+	}
+	if f := c.A.Func("(*Client).helo"); f != nil {
+		R.Ob("(*Client).helo/clears ext", c.P.Pos(f.Pos()), s.Must(f)["st:Client.ext=nil"], "HELO fallback keeps stale extensions")
 	}
 }
